@@ -18,6 +18,8 @@ values without CR/LF, valid ranges, …); the codec round trip itself is no long
 the C06 theorem for that codec. Each restriction is shown necessary by a witness (`*_needs_*`).
 -/
 import WzVerif.Lemmas.ViewsCodec
+import WzVerif.Lemmas.ViewsShared
+import WzVerif.Lemmas.ViewsTyped
 namespace Wz.Props.C16
 open Wz Hdr Views Wz.C16L
 
@@ -255,6 +257,139 @@ theorem mp_needs_domain :
     MP.load (MP.write [("Content-Type".toList, "a/b".toList)] [("n".toList, "x %22y".toList)]).1 ≠ [("n".toList, "x %22y".toList)] := by
   decide +kernel
 
+/-! ## view objects shared between responses, several live views of one response
+
+`W` = any number of responses and any number of held view objects; every object remembers the
+response its `on_update` closure writes to: the response whose property getter made it, or - for
+`www_authenticate`, whose setter installs a new closure - the response it was last assigned to
+(`Ev2.assign`; for the other properties the setter stores the text and does not re-bind, the object
+stays a view of the response it was read from). Events: a mutator on any held object, reading any
+response's property into any slot, assigning any held object to any response's property, any edit
+of any response's headers (including replacing `response.headers` altogether). -/
+
+/-- **www_authenticate across responses**: for every history over any number of responses and held
+`WWWAuthenticate` objects (objects read from one response and assigned to another, one object
+assigned to several responses in turn, several objects live for one response, stale objects whose
+header was edited, replaced or deleted), every held object that is in sync re-reads equal from the
+response its callback targets - where the setter re-targets the callback to the assigned-to
+response. -/
+theorem view_coherent_shared_auth (evs : List (Ev2 Auth.Op)) (w : W Auth.St)
+    (hinv : ∀ x ∈ w.held, x.synced = true → Auth.load (w.hs x.tgt) = x.v)
+    (hok : okHist2 (sharedOf authFamily true) eqB anyView anyOp (fun _ c => authGood c) w evs = true) :
+    ∀ x ∈ (run2 (sharedOf authFamily true) w evs).held, x.synced = true →
+      Auth.load ((run2 (sharedOf authFamily true) w evs).hs x.tgt) = x.v :=
+  coherent2_eq (sharedOf authFamily true) anyView anyOp _ (fun _ => rfl) (fun v op h => auth_quiet v op h)
+    (fun h v hg => auth_roundtrip h v hg) (fun _ h v hg => auth_roundtrip h v hg) evs w hinv hok
+
+/-- two responses, none has the header; slot 0 holds `r0.www_authenticate`:
+`v.realm = "one"; r1.www_authenticate = v; v.realm = "two"; r0.headers[...] edited; w = r0.www_authenticate;
+w.token = …` -/
+example : okHist2 (sharedOf authFamily true) eqB anyView anyOp (fun _ c => authGood c)
+    ⟨fun _ => [], [⟨Auth.default, 0, true⟩, ⟨Auth.default, 1, true⟩]⟩
+    [.view 0 (.setitem "realm".toList (some "one".toList)), .assign 0 1,
+     .view 0 (.setitem "realm".toList (some "two".toList)),
+     .edit 0 (fun _ => [("WWW-Authenticate".toList, "Bearer abc".toList)]), .fetch 1 0,
+     .view 1 (.setToken (some "t0k".toList)), .assign 1 2] = true := by
+  decide +kernel
+
+/-- **the setter re-binds**: after `response_i.www_authenticate = v` the object `v` is a view of
+response `i` (its callback targets `i`, the header of `i` is `v`'s serialisation), and a later
+mutation of `v` rewrites the header of response `i` from the new view and leaves the headers of every
+other response - in particular the one `v` was read from - untouched. -/
+theorem www_authenticate_setter_rebinds (w : W Auth.St) (j i : Nat) (x : Held Auth.St) (op : Auth.Op)
+    (hj : w.held[j]? = some x) :
+    let w1 := next2 (sharedOf authFamily true) w (.assign j i)
+    let w2 := next2 (sharedOf authFamily true) w1 (.view j op)
+    w1.held[j]? = some ⟨x.v, i, true⟩ ∧ w1.hs i = (Auth.write (w.hs i) x.v).1 ∧
+    (∀ k, k ≠ i → w2.hs k = w.hs k) ∧
+    ((Auth.step x.v op).notified = true → w2.hs i = (Auth.write (w1.hs i) (Auth.step x.v op).st).1) := by
+  intro w1 w2
+  have h1 := assign_retargets (sharedOf authFamily true) rfl w j i x hj
+  have h2 := view_frame (sharedOf authFamily true) w1 j op ⟨x.v, i, true⟩ h1.1
+  refine ⟨h1.1, h1.2, fun k hk => ?_, h2.2⟩
+  rw [h2.1 k hk]
+  simp only [w1, next2, hj, sharedOf, if_true]
+  exact upd_ne _ _ _ _ hk
+
+/-- the C16-c2 scenario in the model: `r0.www_authenticate = WWWAuthenticate("basic", {"realm": "one"});
+v = r0.www_authenticate; r1.www_authenticate = v; v.realm = "two"` leaves `r0` with realm one and
+writes realm two into `r1` -/
+theorem www_authenticate_shared_regression :
+    let w := run2 (sharedOf authFamily true)
+      ⟨fun k => if k = 0 then [("WWW-Authenticate".toList, "Basic realm=one".toList)] else [], [⟨Auth.default, 5, false⟩]⟩
+      [.fetch 0 0, .assign 0 1, .view 0 (.setitem "realm".toList (some "two".toList))]
+    w.hs 0 = [("WWW-Authenticate".toList, "Basic realm=one".toList)] ∧
+    w.hs 1 = [("WWW-Authenticate".toList, "Basic realm=two".toList)] := by
+  decide +kernel
+
+/-- **Vary / Allow / Content-Language across responses** (the setter stores the text; the object
+stays a view of the response it was read from): every held object in sync re-reads equal from its own
+response, under `HeaderSet.Inv` and the restrictions of `view_coherent_set`. -/
+theorem view_coherent_shared_set (name : Str) (evs : List (Ev2 HS.Op)) (w : W HS.St)
+    (hinv : ∀ x ∈ w.held, HS.Inv x.v ∧ (x.synced = true → hsEq (SetView.load (w.hs x.tgt) name) x.v = true))
+    (hok : okHist2 (sharedOf (setFamily name) false) hsEq (fun c => decide (HS.Inv c)) C08L.hsOk
+      (fun _ c => setGood c) w evs = true) :
+    ∀ x ∈ (run2 (sharedOf (setFamily name) false) w evs).held, HS.Inv x.v ∧ (x.synced = true →
+      hsEq (SetView.load ((run2 (sharedOf (setFamily name) false) w evs).hs x.tgt) name) x.v = true) := by
+  have := coherent2 (sharedOf (setFamily name) false) hsEq (fun c => decide (HS.Inv c)) C08L.hsOk (fun _ c => setGood c)
+    (fun v op hv ha => by
+      simp only [decide_eq_true_eq] at hv ⊢
+      exact C08L.hs_inv_preserved v hv op ha)
+    (fun v op hv _ hq => by
+      simp only [decide_eq_true_eq] at hv
+      exact hs_quiet v hv op hq)
+    (fun h v hv hg => set_roundtrip h name v (by simpa using hv) hg)
+    (fun hb => by cases hb) evs w
+    (fun x hx => ⟨by simpa using (hinv x hx).1, (hinv x hx).2⟩) hok
+  exact fun x hx => ⟨by simpa using (this x hx).1, (this x hx).2⟩
+
+example : okHist2 (sharedOf (setFamily "Vary".toList) false) hsEq (fun c => decide (HS.Inv c)) C08L.hsOk (fun _ c => setGood c)
+    ⟨fun k => if k = 0 then [("Vary".toList, "Cookie".toList)] else [],
+     [⟨SetView.load [("Vary".toList, "Cookie".toList)] "Vary".toList, 0, true⟩, ⟨HS.construct [], 1, true⟩]⟩
+    [.view 0 (.add "Accept".toList), .assign 0 1, .view 1 (.add "x".toList), .view 0 (.remove "cookie".toList),
+     .fetch 1 0, .view 0 (.add "late".toList), .view 1 (.discard "accept".toList), .edit 1 (fun _ => [])] = true := by
+  decide +kernel
+
+/-- **cache_control, content_security_policy(_report_only), content_range, mimetype_params across
+responses and with several live view objects per response** (no setter re-binds). -/
+theorem view_coherent_shared_plain :
+    (∀ (evs : List (Ev2 CC.Op)) (w : W ODict), (∀ x ∈ w.held, x.synced = true → CC.load (w.hs x.tgt) = x.v) →
+      okHist2 (sharedOf ccFamily false) eqB anyView anyOp (fun _ d => dictGood d) w evs = true →
+      ∀ x ∈ (run2 (sharedOf ccFamily false) w evs).held, x.synced = true →
+        CC.load ((run2 (sharedOf ccFamily false) w evs).hs x.tgt) = x.v) ∧
+    (∀ (name writeName : Str), lower name = lower writeName → ∀ (evs : List (Ev2 CSP.Op)) (w : W CSP.St),
+      (∀ x ∈ w.held, x.synced = true → CSP.load (w.hs x.tgt) name = x.v) →
+      okHist2 (sharedOf (cspFamily name writeName) false) eqB anyView anyOp (fun _ d => cspGood d) w evs = true →
+      ∀ x ∈ (run2 (sharedOf (cspFamily name writeName) false) w evs).held, x.synced = true →
+        CSP.load ((run2 (sharedOf (cspFamily name writeName) false) w evs).hs x.tgt) name = x.v) ∧
+    (∀ (evs : List (Ev2 CR.Op)) (w : W CR.St), (∀ x ∈ w.held, x.synced = true → CR.load (w.hs x.tgt) = x.v) →
+      okHist2 (sharedOf crFamily false) eqB anyView anyOp (fun _ c => crGood c) w evs = true →
+      ∀ x ∈ (run2 (sharedOf crFamily false) w evs).held, x.synced = true →
+        CR.load ((run2 (sharedOf crFamily false) w evs).hs x.tgt) = x.v) ∧
+    (∀ (evs : List (Ev2 (DOp Str))) (w : W MP.St), (∀ x ∈ w.held, x.synced = true → MP.load (w.hs x.tgt) = x.v) →
+      okHist2 (sharedOf mpFamily false) eqB anyView anyOp mpGood w evs = true →
+      ∀ x ∈ (run2 (sharedOf mpFamily false) w evs).held, x.synced = true →
+        MP.load ((run2 (sharedOf mpFamily false) w evs).hs x.tgt) = x.v) := by
+  refine ⟨fun evs w hinv hok => ?_, fun name writeName hk evs w hinv hok => ?_, fun evs w hinv hok => ?_,
+    fun evs w hinv hok => ?_⟩
+  · exact coherent2_eq (sharedOf ccFamily false) anyView anyOp _ (fun _ => rfl) (fun v op h => cc_quiet v op h)
+      (fun h v hg => cc_roundtrip h v hg) (fun hb => by cases hb) evs w hinv hok
+  · exact coherent2_eq (sharedOf (cspFamily name writeName) false) anyView anyOp _ (fun _ => rfl)
+      (fun v op h => csp_quiet v op h) (fun h v hg => C16L.csp_roundtrip h name writeName hk v hg)
+      (fun hb => by cases hb) evs w hinv hok
+  · exact coherent2_eq (sharedOf crFamily false) anyView anyOp _ (fun _ => rfl) (fun v op h => cr_quiet v op h)
+      (fun h v hg => cr_roundtrip h v hg) (fun hb => by cases hb) evs w hinv hok
+  · exact coherent2_eq (sharedOf mpFamily false) anyView anyOp _ (fun _ => rfl) (fun v op h => dstep_quiet v op h)
+      (fun h v hg => mp_roundtrip h v hg) (fun hb => by cases hb) evs w hinv hok
+
+/-- two live cache_control objects of one response: the second is stale after the first wrote, and
+in sync again after it wrote itself (no claim is made about it in between) -/
+example : okHist2 (sharedOf ccFamily false) eqB anyView anyOp (fun _ d => dictGood d)
+    ⟨fun _ => [], [⟨[], 0, true⟩, ⟨[], 0, true⟩]⟩
+    [.view 0 (.attr "max-age".toList .int (.int 5)), .view 1 (.attr "no-store".toList .bool (.bool true)),
+     .edit 0 (fun _ => []), .view 0 (.delattr "max-age".toList), .fetch 1 0] = true := by
+  decide +kernel
+
 /-! ## (ii) an effective mutation rewrites the header from the view -/
 
 /-- In every family a mutator that changes the view calls `on_update` (notification completeness:
@@ -445,5 +580,176 @@ theorem typed_delete {τ : Type} (load : Str → Option τ) (dflt : Option τ) (
         have : p ∈ (delKey h name).filter (keyEq name) := List.mem_filter.2 ⟨hm, hkp⟩
         simp_all
     simp [hk]
+
+
+/-- date-typed properties (`date`, `expires`, `last_modified`): a datetime assigned - any instant
+from year 100 to year 9999, given in whole seconds `t` since the proleptic-Gregorian epoch after
+`http_date` normalised it to UTC at one-second resolution - is stored as its IMF-fixdate text and
+read back as the same instant (C06's `date_roundtrip`). -/
+theorem typed_get_set_date (h : HList) (name : Str) (t : Nat) (h1 : Date.tMin ≤ t) (h2 : t ≤ Date.tMax) :
+    Scalar.get Date.parseDate none (Scalar.set h name (Date.httpDate t)).1 name = some t := by
+  rw [typed_get_set Date.parseDate none h name _ (httpDate_noNL t), Date.date_roundtrip_any t h1 h2]
+
+example : Date.tMin ≤ 63839700306 ∧ 63839700306 ≤ Date.tMax := by decide
+
+/-- set-valued properties (`access_control_allow_headers` / `_methods` / `_expose_headers`):
+`dump_header(items)` is stored and `parse_set_header` reads back a `HeaderSet` with the same item
+list, for every list of strings without CR/LF (C06's `parseSet_dump`). -/
+theorem typed_get_set_set (h : HList) (name : Str) (items : List Str) (hv : ∀ w ∈ items, hasNL w = false) :
+    Scalar.get (fun s => some (Http.parseSetHeader s)) none (Scalar.set h name (Http.dumpHeaderList items)).1 name
+      = some items := by
+  have hnl : hasNL (Http.dumpHeaderList items) = false :=
+    setDump_noNL ⟨items, []⟩ (by simpa [setGood] using hv)
+  rw [typed_get_set _ none h name _ hnl]
+  exact congrArg some (parseSet_dumpList items)
+
+example : ∀ w ∈ ["X-A".toList, "x b".toList], hasNL w = false := by decide
+
+/-- enum-typed properties (`cross_origin_opener_policy`, `cross_origin_embedder_policy`): a member's
+value is stored and the member is read back; any other header text reads as the default -/
+theorem typed_get_set_enum (h : HList) (name : Str) (members : List String) (v : String)
+    (hm : members.contains v = true) (hv : hasNL v.toList = false) (dflt : String) :
+    Scalar.get (fun s => if members.contains (String.ofList s) then some (String.ofList s) else none) (some dflt)
+      (Scalar.set h name v.toList).1 name = some v := by
+  rw [typed_get_set _ _ h name _ hv]
+  have hm' : v ∈ members := by simpa using hm
+  simp [hm']
+
+example : Gen.Views.coopValues.contains "same-origin" = true ∧ Gen.Views.coepValues.contains "require-corp" = true := by
+  decide
+
+/-- `mimetype`: after `response.mimetype = m` (a stripped, non-empty type without `;` and CR/LF) the
+getter returns `m` - whether or not `get_content_type` appended `; charset=utf-8` -/
+theorem typed_get_set_mimetype (h : HList) (m : Str) (hne : m ≠ []) (hsc : ∀ x ∈ m, (x == ';') = false)
+    (hstrip : Views.strip m = m) (hnl : hasNL m = false) :
+    MP.mimetype (Scalar.mimetypeSet h m).1 = some m :=
+  mimetype_get_set h m hne hsc hstrip hnl
+
+example : Scalar.getContentType "text/html".toList = "text/html; charset=utf-8".toList ∧
+    Scalar.getContentType "application/json".toList = "application/json".toList ∧
+    Scalar.getContentType "image/svg+xml".toList = "image/svg+xml; charset=utf-8".toList ∧
+    Views.strip "text/html".toList = "text/html".toList := by decide +kernel
+
+/-- `retry_after`: an int is stored as its decimal text and found again as that number of seconds
+(the getter adds it to the clock); a datetime is stored as IMF-fixdate text which is handed to
+`parse_date` (→ `typed_get_set_date`); assigning `None` removes the header -/
+theorem typed_get_set_retry_after (h : HList) (i : Int) (t : Nat) :
+    Scalar.retryAfterGet (Scalar.retryAfterSet h (some (CC.intText i))).1 = .seconds i ∧
+    Scalar.retryAfterGet (Scalar.retryAfterSet h (some (Date.httpDate t))).1 = .date (Date.httpDate t) ∧
+    Scalar.retryAfterGet (Scalar.retryAfterSet h none).1 = .none := by
+  have key : ∀ v, hasNL v = false → getKey (Hdr.set h "Retry-After".toList v).1 "retry-after".toList = .ok v := by
+    intro v hv
+    have := set_getKey h "Retry-After".toList v hv
+    simp only [getKey] at this ⊢
+    rw [keyEq_congr (k := "retry-after".toList) (k' := "Retry-After".toList) (by decide)]
+    exact this
+  refine ⟨?_, ?_, ?_⟩
+  · simp only [Scalar.retryAfterGet, Scalar.retryAfterSet, key _ (intText_noNL i), pyInt_intText]
+  · have hd : CC.pyInt (Date.httpDate t) = none := httpDate_not_int t
+    simp only [Scalar.retryAfterGet, Scalar.retryAfterSet, key _ (httpDate_noNL t), hd]
+  · simp only [Scalar.retryAfterGet, Scalar.retryAfterSet, absent_getKey]
+
+/-- `access_control_allow_credentials`: `True` stores `true` and reads back `True`; anything else
+removes the header and reads back `False` -/
+theorem typed_get_set_credentials (h : HList) :
+    Scalar.credentialsGet (Scalar.credentialsSet h true).1 = true ∧
+    Scalar.credentialsGet (Scalar.credentialsSet h false).1 = false := by
+  constructor
+  · have := set_getKey h Scalar.credentialsName "true".toList (by decide)
+    simp only [Scalar.credentialsGet, Scalar.credentialsSet, if_true, Hdr.contains]
+    simp only [getKey] at this
+    cases hf : (Hdr.set h Scalar.credentialsName "true".toList).1.find? (keyEq Scalar.credentialsName) with
+    | some _ => rfl
+    | none => rw [hf] at this; cases this
+  · have hd := typed_delete (fun s => some s) none h Scalar.credentialsName
+    simp only [Scalar.get, Scalar.delete] at hd
+    simp only [Scalar.credentialsGet, Scalar.credentialsSet, Bool.false_eq_true, if_false, Hdr.contains]
+    simp only [getKey] at hd
+    cases hf : (popKey h Scalar.credentialsName (some [])).1.find? (keyEq Scalar.credentialsName) with
+    | none => rfl
+    | some p => rw [hf] at hd; simp at hd
+
+/-- `set_etag` / `get_etag`: for every tag without `"` and CR/LF, weak or strong, `get_etag()` after
+`set_etag(e, weak)` is `(e, weak)` (C06's `etag_roundtrip`); a tag containing `"` is refused and the
+headers are unchanged -/
+theorem typed_get_set_etag (h : HList) (e : Str) (weak : Bool) (hq : e.contains '"' = false) (hnl : hasNL e = false) :
+    Scalar.getEtag (Scalar.setEtag h e weak).1 = some (e, weak) := by
+  have hr := Http.unquote_quoteEtag e weak hq
+  unfold Scalar.getEtag Scalar.setEtag
+  cases hqe : Http.quoteEtag e weak with
+  | error x => rw [hqe] at hr; cases hr
+  | ok t =>
+    rw [hqe] at hr
+    simp only [Except.map, Except.ok.injEq] at hr
+    have ht : hasNL t = false := by
+      unfold Http.quoteEtag at hqe
+      rw [hq] at hqe
+      simp only [Bool.false_eq_true, if_false, Except.ok.injEq] at hqe
+      subst hqe
+      cases weak <;> simp [hasNL_append, hasNL_cons, hnl, isNL] <;> rfl
+    simp only [set_getKey h _ t ht, hr]
+
+example : Scalar.setEtag [] "a\"b".toList false = ([], .error "ValueError") := by decide
+
+/-! ## every header-backed attribute of `sansio.Response` is covered
+
+`Gen.ResponseProps.attrs` is regenerated from the live class and the AST of the module: every
+descriptor of the class and every method that touches `self.headers`. -/
+
+/-- attribute → the theorems that speak about it -/
+def covered : List (String × String) := [
+  ("accept_ranges", "typed_get_set_str"), ("access_control_allow_credentials", "typed_get_set_credentials"),
+  ("access_control_allow_headers", "typed_get_set_set"), ("access_control_allow_methods", "typed_get_set_set"),
+  ("access_control_allow_origin", "typed_get_set_str"), ("access_control_expose_headers", "typed_get_set_set"),
+  ("access_control_max_age", "typed_get_set_int"), ("age", "typed_get_set_age"),
+  ("allow", "view_coherent_set"), ("cache_control", "view_coherent_cc"),
+  ("content_encoding", "typed_get_set_str"), ("content_language", "view_coherent_set"),
+  ("content_length", "typed_get_set_int"), ("content_location", "typed_get_set_str"),
+  ("content_md5", "typed_get_set_str"), ("content_range", "view_coherent_cr"),
+  ("content_security_policy", "view_coherent_csp"), ("content_security_policy_report_only", "view_coherent_csp"),
+  ("content_type", "typed_get_set_str"), ("cross_origin_embedder_policy", "typed_get_set_enum"),
+  ("cross_origin_opener_policy", "typed_get_set_enum"), ("date", "typed_get_set_date"),
+  ("expires", "typed_get_set_date"), ("get_etag", "typed_get_set_etag"),
+  ("last_modified", "typed_get_set_date"), ("location", "typed_get_set_str"),
+  ("mimetype", "typed_get_set_mimetype"), ("mimetype_params", "view_coherent_mp"),
+  ("retry_after", "typed_get_set_retry_after"), ("set_etag", "typed_get_set_etag"),
+  ("vary", "view_coherent_set"), ("www_authenticate", "view_coherent_auth")]
+
+/-- attribute → why it is not a C16 obligation -/
+def excluded : List (String × String) := [
+  ("set_cookie", "Set-Cookie is write-only here; dump_cookie / parse_cookie are property C13"),
+  ("status", "not header-backed (status line; _clean_status is modelled in C05)"),
+  ("status_code", "not header-backed"),
+  ("is_json", "read-only predicate on mimetype")]
+
+/-- the (load, dump) pairs of `header_property` descriptors the typed theorems cover -/
+def codecPairs : List (String × String × String) := [
+  ("none", "none", "typed_get_set_str"), ("int", "str", "typed_get_set_int"),
+  ("parse_age", "dump_age", "typed_get_set_age"), ("parse_date", "http_date", "typed_get_set_date"),
+  ("parse_set_header", "dump_header", "typed_get_set_set"), ("<lambda>", "<lambda>", "typed_get_set_enum")]
+
+/-- **Coverage**: every descriptor of `sansio.Response` and every method using `self.headers` is
+mapped to its theorem or explicitly excluded; nothing listed is stale; every `header_property` is in
+the generated descriptor table with a (load, dump) pair that has a typed theorem and is mapped to
+that theorem; every `_set_property` is in the generated set-view table; the view-kind attributes are
+exactly the six view families. A new or renamed property, or a new codec pair, breaks this. -/
+theorem response_attrs_covered :
+    Gen.ResponseProps.attrs.all (fun (a, _, _, _, _) =>
+      (covered.map (·.1)).contains a != (excluded.map (·.1)).contains a) = true ∧
+    (covered ++ excluded).all (fun (a, _) => (Gen.ResponseProps.attrs.map (·.1)).contains a) = true ∧
+    Gen.ResponseProps.attrs.all (fun (a, k, _, _, _) => k != "header_property" ||
+      Gen.Views.headerProps.any (fun (a', _, lf, df, _, _) => a' == a &&
+        codecPairs.any (fun (l, d, thm) => l == lf && d == df && covered.contains (a, thm)))) = true ∧
+    Gen.ResponseProps.attrs.all (fun (a, k, hn, _, _) => k != "set_view" ||
+      Gen.Views.setProps.any (fun (a', n) => a' == a && hn == [n])) = true ∧
+    (Gen.ResponseProps.attrs.filter (fun (_, k, _, _, _) => k == "view")).map (·.1) =
+      ["cache_control", "content_range", "content_security_policy", "content_security_policy_report_only",
+       "mimetype_params", "www_authenticate"] := by
+  decide
+
+/-- the `on_update` (re)binding of `www_authenticate` is unconditional in the source: the getter and
+the setter each assign `value._on_update` exactly once, not under a test of that attribute (the
+model's `rebinds := true`; the C16-c2 regression) -/
+theorem www_authenticate_rebinds_in_source : Gen.ResponseProps.wwwAuthRebind = ((1, 0), (1, 0)) := by decide
 
 end Wz.Props.C16
